@@ -337,3 +337,5 @@ DECIDES += (' C25-COVER: for every combination of the def-node flags tested by C
 ASSUMPTIONS = list(globals().get('ASSUMPTIONS', [])) + [
     'C25-COVER: node quantities (len(args), num_*_args, len(varnames), line) are non-negative; arguments added to a generator expression after construction are plain positional '
     '(its keyword-only / positional-only counts stay 0: shown from the construction sites with is_generator_expression=True passing args=[] and DefNode.__init__ counting over self.args)']
+MUTATIONS += ('; sixth round (seed C25h): C25-COVER - 10 breaking edits of the sizer / writer pair (sizer skips coroutines / lambdas / generators, writer special case inverted, min(), '
+              'plain assignment, sliced collection, break, width of max-1, flags mask typo) and 8 behaviour-preserving rewrites under /verif/mutants/C25/h-* and p6-*')
